@@ -20,7 +20,13 @@ def make_grid(rng, L, kind=None):
     elif kind == "uniform":
         x = np.linspace(0, 1, L)
     elif kind == "quadratic":
-        x = Numerics.quadratic_grid(L) if hasattr(Numerics, "quadratic_grid") else np.linspace(0, 1, L) ** 2
+        if L >= 20 and hasattr(Numerics, "quadratic_grid"):
+            x = Numerics.quadratic_grid(L)
+            x = x[:L] if len(x) >= L else x
+            x[0], x[-1] = 0.0, 1.0
+        else:   # Numerics.quadratic_grid needs >= 20 points; same flavour (dense at both ends) for small L
+            q = np.linspace(0, 1, L)
+            x = 3 * q ** 2 - 2 * q ** 3
     elif kind == "sqlin":
         x = np.linspace(0, 1, L) ** 2
     elif kind == "random":
